@@ -10,4 +10,4 @@ for c in "$@"; do
   echo "[$c rc=$rc] $(echo "$out" | grep -c '^VIOLATION') violation lines; $(echo "$out" | tail -1)"
   echo "$out" | grep -E "^ +[0-9]+ x " | head -4
 done
-git -C /repo checkout -q -- . ; git -C /repo reset -q; rm -rf /verif/replays
+git -C /repo reset -q --hard HEAD; rm -rf /verif/replays
